@@ -1054,10 +1054,19 @@ def cache_key(chk, prog, files):
             if not (isinstance(cmp_, ast.Compare) and len(cmp_.ops) == 1 and isinstance(cmp_.ops[0], (ast.NotEq, ast.Eq, ast.Is, ast.IsNot))):
                 continue
             sides = [cmp_.left, cmp_.comparators[0]]
-            attr = next((x.attr for x in sides if isinstance(x, ast.Attribute) and isinstance(x.value, ast.Name) and x.value.id == "self" and x.attr in stores), None)
+
+            def key_attr(x):
+                if isinstance(x, ast.Attribute) and isinstance(x.value, ast.Name) and x.value.id == "self" and x.attr in stores:
+                    return x.attr
+                # getattr(self, '_key', None)
+                if isinstance(x, ast.Call) and isinstance(x.func, ast.Name) and x.func.id == "getattr" and len(x.args) >= 2 and isinstance(x.args[0], ast.Name) \
+                        and x.args[0].id == "self" and isinstance(x.args[1], ast.Constant) and x.args[1].value in stores:
+                    return x.args[1].value
+                return None
+            attr = key_attr(sides[0]) or key_attr(sides[1])
             if attr is None:
                 continue
-            other = sides[1] if (isinstance(sides[0], ast.Attribute) and getattr(sides[0], "attr", None) == attr) else sides[0]
+            other = sides[1] if key_attr(sides[0]) == attr else sides[0]
             stored = stores[attr]
             if ast.dump(stored) != ast.dump(other):
                 continue                          # the remembered value is not the compared key
@@ -1065,8 +1074,6 @@ def cache_key(chk, prog, files):
             if isinstance(other, ast.Name) and other.id in local_defs:
                 key_expr = local_defs[other.id][-1]
             key_params = deps(key_expr)
-            if not key_params:
-                continue
             n += 1
             # what the comparison guards
             flags = set()
@@ -1087,6 +1094,43 @@ def cache_key(chk, prog, files):
             need = set()
             for g in guarded_nodes:
                 need |= deps(g)
+            # object state the skipped work reads: attributes that some method other than the constructor (re)assigns are inputs too
+            def attrs_of(node_or_nodes):
+                out = set()
+                for g_ in (node_or_nodes if isinstance(node_or_nodes, list) else [node_or_nodes]):
+                    for x in ast.walk(g_):
+                        if isinstance(x, ast.Attribute) and isinstance(x.value, ast.Name) and x.value.id == "self" and isinstance(x.ctx, ast.Load):
+                            out.add(x.attr)
+                return out
+            key_attrs = attrs_of(key_expr)
+            frontier = [x.id for x in ast.walk(key_expr) if isinstance(x, ast.Name)]
+            seen_l = set()
+            while frontier:                      # attributes the key depends on through locals (dt = f(self.date_dec, self.epoch))
+                nm = frontier.pop()
+                if nm in seen_l:
+                    continue
+                seen_l.add(nm)
+                for d_ in local_defs.get(nm, []):
+                    key_attrs |= attrs_of(d_)
+                    frontier.extend(x.id for x in ast.walk(d_) if isinstance(x, ast.Name))
+            cached_attrs = {t.attr for g_ in guarded_nodes for x in ast.walk(g_) if isinstance(x, (ast.Assign, ast.AugAssign))
+                            for t in (x.targets if isinstance(x, ast.Assign) else [x.target])
+                            for t in [t.value if isinstance(t, ast.Subscript) else t] if isinstance(t, ast.Attribute)}
+            mutable = set()
+            for g_ in f.cls.methods.values():
+                if g_.name in ("__init__", "__new__"):
+                    continue
+                for x in ast.walk(g_.node):
+                    if isinstance(x, ast.Attribute) and isinstance(x.ctx, ast.Store) and isinstance(x.value, ast.Name) and x.value.id == "self":
+                        mutable.add(x.attr)
+                    if isinstance(x, ast.Subscript) and isinstance(x.ctx, ast.Store) and isinstance(x.value, ast.Attribute) and isinstance(x.value.value, ast.Name) \
+                            and x.value.value.id == "self":
+                        mutable.add(x.value.attr)
+            stale_state = sorted(a_ for a_ in attrs_of([g_ for g_ in guarded_nodes if isinstance(g_, ast.AST)]) if a_ in mutable and a_ not in key_attrs and a_ not in cached_attrs and a_ != attr)
+            if stale_state:
+                chk.finding("CACHE-KEY", f.module.rel, f.qname, "key self.%s = %s" % (attr, ast.unparse(key_expr)[:60]),
+                            "the work skipped while `%s` is unchanged reads %s, object state that other methods re-assign and that the remembered key does not cover: after such a "
+                            "change (e.g. another model file loaded) the cached result is stale" % (ast.unparse(cmp_)[:60], ", ".join("self." + a_ for a_ in stale_state)), line=cmp_.lineno)
             missing = sorted(need - key_params)
             if missing:
                 chk.finding("CACHE-KEY", f.module.rel, f.qname, "key self.%s = %s" % (attr, ast.unparse(key_expr)[:60]),
